@@ -162,6 +162,13 @@ impl Property for C17 {
             s.op(rng.below(2000), Op::Browse { d: 0, ty: "_http._tcp.local.".into(), slot: 90 });
             s.op(1000 + rng.below(3000), Op::PeerSend { p: 0, v4: true, sport: 5353, msg: announce(&[ir.ptr.clone(), ir.srv.clone(), ir.txt.clone()]), to: Dest::Mcast });
         }
+        if rng.below(3) == 0 {
+            // a concurrent search for another host, of which nobody has records: its channel must stay free of the
+            // first host's addresses (drawn last, so that the rest of the world is what it was before this was added)
+            let other = ["printer.local.", "Media-Box.local.", "NAS.local."].iter().find(|b| **b != base).unwrap();
+            let timeout = if rng.bool() { Some(4000) } else { None };
+            s.op(rng.below(3000), Op::ResolveHost { d: 0, host: variant(&mut rng, other), timeout, slot: 40 });
+        }
         let mult = match tier {
             Tier::Quick => 3,
             Tier::Thorough => 8,
